@@ -133,9 +133,13 @@ def target_class(n):
     return ".".join(names[:3]) if names else "?"
 
 
+CTOR_FUNCS = ("nsync_note_new", "nsync_counter_new")
+
+
 def extract_function(mod, fd):
     sites = []
     fname = fd["name"]
+    effects = []      # (what, guards) for every call / store through a pointer in the constructors
 
     def line_of(n):
         loc = n.get("range", {}).get("begin", {})
@@ -150,6 +154,8 @@ def extract_function(mod, fd):
     inits, dirty = {}, set()
 
     def has_site(n):
+        if n.get("kind") == "CallExpr":
+            return True      # initialisers containing any call are not inlined
         if n.get("kind") == "DeclRefExpr" and n.get("referencedDecl", {}).get("name") in ("vrt_cas", "vrt_load", "vrt_store"):
             return True
         return any(has_site(c) for c in n.get("inner", []) if isinstance(c, dict))
@@ -223,6 +229,20 @@ def extract_function(mod, fd):
                 for a in args:
                     visit(a, guards)
                 return
+        if fname in CTOR_FUNCS:
+            if k == "CallExpr":
+                callee = n["inner"][0]
+                while callee.get("kind") in ("ImplicitCastExpr", "ParenExpr"):
+                    callee = callee["inner"][0]
+                cn2 = callee.get("referencedDecl", {}).get("name", "?")
+                if cn2 not in ("vrt_malloc", "malloc"):
+                    effects.append(("call " + cn2, list(guards)))
+            if k == "BinaryOperator" and n.get("opcode") == "=":
+                lhs = n["inner"][0]
+                while lhs.get("kind") in ("ParenExpr", "ImplicitCastExpr"):
+                    lhs = lhs["inner"][0]
+                if lhs.get("kind") == "MemberExpr" and lhs.get("isArrow"):
+                    effects.append(("store ->" + lhs.get("name", "?"), list(guards)))
         if k == "IfStmt":
             inner = n["inner"]
             c = inner[0]
@@ -273,7 +293,12 @@ def extract_function(mod, fd):
     body = [c for c in fd.get("inner", []) if c.get("kind") == "CompoundStmt"]
     if body:
         visit(body[0], [])
+    if fname in CTOR_FUNCS:
+        CTOR_EFFECTS[fname] = effects
     return sites
+
+
+CTOR_EFFECTS = {}
 
 
 def extract_all(repo, verif):
@@ -347,6 +372,29 @@ def emit(allsites, errors, out):
         for (fb, fn, i, s) in inv:
             if fb == fbase:
                 rows.append('  mk_site "%s" %d K%s O%s "%s" %d' % (fn, i, s["kind"], s["order"], s["target"], s["line"] or 0))
+        L.append(";\n".join(rows) + "].")
+        L.append("")
+    # C19: every call / store of the constructors after the allocation, with the translatable part of its guard
+    L.append("(* constructors: effects after the allocation and the conditions that dominate them (variable = the fresh pointer) *)")
+    for fn, effs in sorted(CTOR_EFFECTS.items()):
+        rows = []
+        for what, gs in effs:
+            conj = []
+            fv = []
+            for pol, g in gs:
+                if "expr" in g:
+                    conj.append(g["expr"] if pol == "+" else "(negb %s)" % g["expr"])
+                    for v in g["free"]:
+                        if v not in fv:
+                            fv.append(v)
+            ptr = "n" if fn == "nsync_note_new" else "c"
+            others = [v for v in fv if v[0] != ptr]
+            body = " && ".join(conj) if conj else "true"
+            lam = "(fun (%s : Z) => %s)" % (ptr, body) if not others else None
+            if lam is None:
+                lam = "(fun (%s : Z) => true)" % ptr     # guard mentions other variables: treated as unguarded
+            rows.append('  ("%s"%%string, %s)' % (what, lam))
+        L.append("Definition effects_%s : list (string * (Z -> bool)) := [" % coq_ident(fn))
         L.append(";\n".join(rows) + "].")
         L.append("")
     for e in errors:
